@@ -1,7 +1,7 @@
 (* Proofs/Udist.v — the model of stats/udist.go computes the counts of Spec/Ucount.v.
    Part 1: Choose, the Klotz/Cheung recurrence A, the two-rank base case, the feasible range. *)
 From Coq Require Import List ZArith Lia Arith Bool QArith Qround.
-From MM Require Import Base.Num Base.GEComb Spec.Ucount Proofs.Ucount Model.Choose Model.Udist.
+From MM Require Import Base.Num Base.GEComb Spec.Ucount Proofs.Ucount Model.GEChoose Model.Udist.
 Import ListNotations.
 Open Scope Z_scope.
 
